@@ -5,7 +5,13 @@ A poll is what one round of `system.local` + `system.peers` reads shows:
 `state` is what the client believes about the peer: True up, False marked down, None unknown.
 Agreement = the control node and every known peer that is not marked down and reports a version
 report one and the same version.
+
+A poll may also get no answer at all (None) or fail (FAULT: the connection it was made on was lost, or the
+node answered it with an error).  A failed poll ends the wait and nothing was learnt from it: the wait may
+raise the error or report "not agreed" (also before the budget is spent); it may not report agreement.
 """
+
+FAULT = 'fault'
 
 
 def agreed(local_version, peers):
@@ -20,9 +26,19 @@ def agreed(local_version, peers):
 
 
 def judge(result, polls, budget, elapsed):
-    """result: what the wait returned; polls: [None (poll got no answer) | True/False (answered: agreed?)] in the
-    order the client issued them; -> list of (clause, text)"""
+    """result: what the wait returned (None when it raised out of a failed poll); polls: [None (poll got no answer) |
+    True/False (answered: agreed?) | FAULT (the poll failed)] in the order the client issued them; -> list of (clause, text)"""
     bad = []
+    if polls and polls[-1] == FAULT:
+        # the wait ended in a failed poll: it is over (no demand on the time spent), and it did not see agreement
+        before = [i for i, p in enumerate(polls[:-1]) if p is True]
+        if result is True:
+            bad.append(('agreement-reported-after-failed-poll',
+                        'reports agreement although the last poll it made failed and %s (polls: %r)'
+                        % ('no poll before it showed agreement' if not before else 'it polled on after an agreeing poll', polls)))
+        if before:
+            bad.append(('polled-on-after-agreement', 'poll %d already showed agreement, %d polls made' % (before[0], len(polls))))
+        return bad
     if result is not True and result is not False:
         return [('verdict-not-bool', 'returned %r' % (result,))]
     hits = [i for i, p in enumerate(polls) if p is True]
@@ -54,4 +70,9 @@ def selftest():
     assert judge(True, [False, False], 0.3, 0.4)[0][0] == 'agreement-reported-without-agreement'
     assert judge(False, [False, True], 0.3, 0.4)[0][0] == 'agreement-not-reported'
     assert judge(None, [], 1, 0)[0][0] == 'verdict-not-bool'
+    assert judge(None, [False, FAULT], 1, 0.2) == []          # raised out of the failed poll
+    assert judge(False, [False, None, FAULT], 1, 0.4) == []    # or "not agreed", before the budget is spent
+    assert judge(True, [False, FAULT], 1, 0.2)[0][0] == 'agreement-reported-after-failed-poll'
+    assert judge(True, [FAULT], 1, 0.0)[0][0] == 'agreement-reported-after-failed-poll'
+    assert judge(False, [True, FAULT], 1, 0.2)[0][0] == 'polled-on-after-agreement'
     return True
